@@ -567,3 +567,32 @@ Proof.
   split; [vm_compute; reflexivity|]. split; [vm_compute; reflexivity|].
   split; [vm_compute; reflexivity|]. vm_compute. discriminate.
 Qed.
+
+(* "every whitespace entry ends with a line break" ([iwsok]) is needed (listed finding
+   serialize-ws-fold-ini-comment-leaves-line-start):
+   reference  a=A / ;c / <blank> / b=B     old  a=la / <blank> / <2 blanks>b=lb     no new data
+   — both legal and junk-free; the old file's "\n\n  " is kept in front of the reference
+   comment, which then does not start a line: the output  a=la / <blank> / <2 blanks>;c / <blank> / b=lb
+   has a Junk entry *)
+Definition il_ref : list C02BlocksIni.iblock :=
+  [ie [97] [65]; C02BlocksIni.IComment [(59%N, A [99])]; C02BlocksIni.IBlank (A [10]); ie [98] [66]].
+Definition il_old : list C02BlocksIni.iblock :=
+  [ie [97] [108; 97]; C02BlocksIni.IBlank (A [10; 32; 32]); ie [98] [108; 98]].
+Theorem C16_reparse_ini_line_end_refuted :
+  exists name txt es,
+    Forall (fun bs => Forall C02BlocksIni.legal_iblock bs /\ C02BlocksIni.iadjacent_ok bs /\
+                      ukeys (IniShape.icentries_of bs) /\ nf 2 (IniShape.icentries_of bs))
+           [il_ref; il_old] /\
+    serialize wrap_props name (number 0 (IniShape.icentries_of il_ref))
+              (number (length (IniShape.icentries_of il_ref)) (IniShape.icentries_of il_old)) [] = Ok txt /\
+    txt = A [97;61;108;97;10;10;32;32; 59;99;10;10; 98;61;108;98;10] /\
+    walk_ini txt = Ok es /\ filter (C02BlocksIni.is_kind KJunk) es <> [].
+Proof.
+  exists (s [102;46;105;110;105]). eexists. eexists.
+  split.
+  { constructor; [|constructor; [|constructor]];
+      (split; [repeat constructor|]); (split; [vm_compute; reflexivity|]);
+      (split; [split; nodup_tac|]); vm_compute; intuition (try discriminate; try lia). }
+  split; [vm_compute; reflexivity|]. split; [reflexivity|]. split; [vm_compute; reflexivity|].
+  vm_compute. discriminate.
+Qed.
